@@ -141,10 +141,10 @@ type Sched struct {
 	// stall injection: the thread StallThread, once it is waiting in a spin loop, polls StallPolls
 	// times in a row while every other thread stands still (a predecessor that is merely slow:
 	// blocked in I/O, descheduled). An unbounded wait is unaffected; a BOUNDED wait gives up.
-	StallThread int
-	StallPolls  int64
-	stallLeft   int64
-	StallUsed   int64 // polls actually performed in the stall
+	StallPolls int64
+	stall      map[int]int64 // thread id -> polls left
+	stallUsed  map[int]int64
+	StallUsed  int64 // polls actually performed in stalls (all threads)
 }
 
 var active *Sched
@@ -152,7 +152,13 @@ var active *Sched
 func Active() *Sched { return active }
 
 // ArmStall sets the number of consecutive polls of the stalled thread.
-func (s *Sched) ArmStall(thread int, polls int64) { s.StallThread, s.StallPolls, s.stallLeft = thread, polls, polls }
+func (s *Sched) ArmStall(thread int, polls int64) {
+	if s.stall == nil {
+		s.stall, s.stallUsed = map[int]int64{}, map[int]int64{}
+	}
+	s.StallPolls = polls
+	s.stall[thread] = polls
+}
 
 func New(prefix []int) *Sched {
 	s := &Sched{Prefix: prefix, epoch: map[unsafe.Pointer]uint64{}, Horizon: 20000, FaultThread: -1, streamOps: map[int]int{}, objIdx: map[unsafe.Pointer]int{}, Holder: -1, MergeAt: -1}
@@ -267,6 +273,9 @@ func (s *Sched) stateHash() uint64 {
 func (s *Sched) point(kind OpKind, obj unsafe.Pointer) {
 	t := s.cur
 	t.kind, t.obj = kind, obj
+	if s.stall != nil && s.stallUsed[t.ID] > 0 {
+		s.stall[t.ID] = 0 // the stalled thread left its wait loop (or its budget ended): one stall per thread
+	}
 	if s.UseCache {
 		var pcs [8]uintptr
 		n := runtime.Callers(2, pcs[:])
@@ -556,18 +565,24 @@ func (s *Sched) wrote(addr unsafe.Pointer) {
 
 func (s *Sched) doLoad(addr unsafe.Pointer, read func() int64) int64 {
 	t := s.cur
-	if s.StallThread == t.ID && s.stallLeft > 0 && s.StallUsed > 0 && t.lastAddr == addr {
-		s.stallLeft--
+	if s.stall != nil && s.stall[t.ID] > 0 && s.stallUsed[t.ID] > 0 && t.lastAddr == addr && t.lastSite != 0 {
+		// still in the same wait loop (the caller's site is not re-derived for speed; the first load
+		// from another place goes through the slow path below because lastAddr is cleared by any
+		// other operation of the thread)
+		s.stall[t.ID]--
+		s.stallUsed[t.ID]++
 		s.StallUsed++
 		return read()
 	}
 	site := callerPC()
 	if t.ID != 0 && t.lastAddr == addr && t.lastSite == site && t.lastEp == s.epoch[addr] {
 		t.spinning = true
-		if s.StallThread == t.ID && s.stallLeft > 0 {
-			s.stallLeft--
+		if s.stall != nil && s.stall[t.ID] > 0 {
+			s.stall[t.ID]--
+			s.stallUsed[t.ID]++
 			s.StallUsed++
-			return read() // nobody else runs: same value, no scheduling point
+			t.spinning = false // the load is performed right here
+			return read()      // nobody else runs: same value, no scheduling point
 		}
 	}
 	s.point(OpLoad, addr)
